@@ -124,6 +124,8 @@ func ribPruned(r *Rib) bool {
 //@   ensures forall(func(h uint64) bool { return h != enc.SpecNameHash(destName) ==> r.hasEntry(h) == old(r.hasEntry(h)) && r.entries[h] == old(r.entries[h]) })
 //@   ensures old(r.hasEntry(enc.SpecNameHash(destName))) ==> r.entries[enc.SpecNameHash(destName)] == old(r.entries[enc.SpecNameHash(destName)])
 //@   ensures old(ribClean(r)) ==> ribClean(r)
+//@   ensures [other-costs-kept] forall(func(h uint64, k uint64) bool { return old(r.hasEntry(h)) && !(h == enc.SpecNameHash(destName) && k == enc.SpecNameHash(nextHop)) ==> r.entries[h].hasHop(k) == old(r.entries[h].hasHop(k)) && r.entries[h].costs[k] == old(r.entries[h].costs[k]) })
+//@   ensures [new-entry-one-cost] !old(r.hasEntry(enc.SpecNameHash(destName))) ==> forall(func(k uint64) bool { return k != enc.SpecNameHash(nextHop) ==> !r.entries[enc.SpecNameHash(destName)].hasHop(k) })
 
 //@ func (*Rib).RemoveNextHop
 //@   requires ribInv(r)
@@ -256,11 +258,40 @@ func fibInv(fib *Fib) bool {
 //@   ensures result[0].Cost == rib.entries[router].lowest1 && result[1].Cost == rib.entries[router].lowest2
 //@   ensures result[0].FaceId == specFace(nt, rib.entries[router].nextHop1) && result[1].FaceId == specFace(nt, rib.entries[router].nextHop2)
 
+// specHasFE: the next-hop list es contains an entry for face at cost.
+func specHasFE(es []FibEntry, face uint64, cost uint64) bool {
+	return existsIn(0, len(es), func(j int) bool { return es[j].FaceId == face && es[j].Cost == cost })
+}
+
+// SpecHasRouterHops (C19, "the faces of that router's best and ... second-best next hops"): the list es contains
+// both next-hop entries that the routing table prescribes for destination router e: (face of e's best next hop, best
+// cost) and (face of e's second-best next hop, second-best cost), cf. GetFibEntries. (Entries at or above infinity
+// are dropped later by UpdateH: "finite second-best".)
+func SpecHasRouterHops(es []FibEntry, nt *NeighborTable, e *RibEntry) bool {
+	return specHasFE(es, specFace(nt, e.nextHop1), e.lowest1) && specHasFE(es, specFace(nt, e.nextHop2), e.lowest2)
+}
+
+// SpecListHas: the next-hop list collected under key k of m contains an entry for face at cost (nothing if k is absent).
+func SpecListHas(m map[uint64][]FibEntry, k uint64, face uint64, cost uint64) bool {
+	return specHasFE(m[k], face, cost)
+}
+
+// SpecListHasRouterHops: SpecHasRouterHops for the list collected under key k of m.
+func SpecListHasRouterHops(m map[uint64][]FibEntry, k uint64, nt *NeighborTable, e *RibEntry) bool {
+	return SpecListHas(m, k, specFace(nt, e.nextHop1), e.lowest1) && SpecListHas(m, k, specFace(nt, e.nextHop2), e.lowest2)
+}
+
+// SpecIsRouterHop: (face, cost) is one of those two entries.
+func SpecIsRouterHop(face uint64, cost uint64, nt *NeighborTable, e *RibEntry) bool {
+	return (face == specFace(nt, e.nextHop1) && cost == e.lowest1) || (face == specFace(nt, e.nextHop2) && cost == e.lowest2)
+}
+
 // UpdateH (C19): after the call the routes held for the prefix are exactly what newEntries prescribes:
 // one entry per face that occurs in newEntries with a finite cost, at the lowest such cost; nothing if there
 // is none (then the prefix, its mark and its name are dropped). Other prefixes are untouched.
 //
 //@ func (*Fib).UpdateH
+//@   option range-index-limit
 //@   requires fibInv(fib) && name != nil
 //@   requires len(newEntries) == 0 || sliceArr(newEntries) != sliceArr(fib.prefixes[nameH])
 //@   modifies fib.names[*], fib.prefixes[*], fib.mark[*], fib.prefixes[nameH][*]
@@ -289,6 +320,9 @@ func fibInv(fib *Fib) bool {
 //@   loop 3 invariant forallIn(0, len(oldEntries), func(i int) bool { return oldEntries[i].Cost < config.CostInfinity ==> existsIn(0, rangeindex2+1, func(j int) bool { return newEntries[j].FaceId == oldEntries[i].FaceId && newEntries[j].Cost == oldEntries[i].Cost }) })
 //@   loop 3 invariant forallIn(0, len(oldEntries), func(i int) bool { return forallIn(0, rangeindex2+1, func(j int) bool { return newEntries[j].FaceId == oldEntries[i].FaceId && newEntries[j].Cost < config.CostInfinity ==> oldEntries[i].Cost <= newEntries[j].Cost }) })
 //@   loop 4 invariant fresh(finalEntries) && len(finalEntries) <= rangeindex+1
+//@   loop 4 invariant [apart] sliceArr(finalEntries) != sliceArr(oldEntries) && (len(newEntries) == 0 || sliceArr(finalEntries) != sliceArr(newEntries)) && allocated(oldEntries) && allocated(newEntries) && allocated(finalEntries)
+//@   loop 4 invariant [room] cap(finalEntries) == len(oldEntries) && sliceOff(finalEntries) == 0
+//@   loop 4 invariant [old-distinct] forallIn(0, len(oldEntries), func(i int) bool { return forallIn(0, len(oldEntries), func(j int) bool { return i != j ==> oldEntries[i].FaceId != oldEntries[j].FaceId }) })
 //@   loop 4 invariant forallIn(0, len(finalEntries), func(k int) bool { return finalEntries[k].Cost < config.CostInfinity && existsIn(0, rangeindex+1, func(i int) bool { return oldEntries[i].FaceId == finalEntries[k].FaceId && oldEntries[i].Cost == finalEntries[k].Cost }) })
 //@   loop 4 invariant forallIn(0, rangeindex+1, func(i int) bool { return oldEntries[i].Cost < config.CostInfinity ==> existsIn(0, len(finalEntries), func(k int) bool { return finalEntries[k].FaceId == oldEntries[i].FaceId && finalEntries[k].Cost == oldEntries[i].Cost }) })
 //@   loop 4 invariant forallIn(0, len(finalEntries), func(k int) bool { return forallIn(0, len(finalEntries), func(l int) bool { return k != l ==> finalEntries[k].FaceId != finalEntries[l].FaceId }) })
@@ -326,6 +360,19 @@ func ptInv(pt *PrefixTable) bool {
 	return pt.routers != nil && forall(func(h uint64) bool {
 		return implies(pt.hasRouter(h) && pt.routers[h] != nil, pt.routers[h].Prefixes != nil)
 	})
+}
+
+// ptEntriesInv: every recorded prefix entry is present (Apply and Announce only ever store &PrefixEntry{...}).
+func ptEntriesInv(pt *PrefixTable) bool {
+	return forall(func(h uint64, k uint64) bool {
+		return implies(pt.hasRouter(h) && pt.routers[h] != nil && pt.routers[h].hasPfx(k), pt.routers[h].Prefixes[k] != nil)
+	})
+}
+
+// SpecPfxFetchDue (C19, log replication): the record of router h exists, no fetch for it is in flight and operations
+// were announced (Latest) beyond the last one applied (Known).
+func SpecPfxFetchDue(pt *PrefixTable, h uint64) bool {
+	return pt.hasRouter(h) && pt.routers[h] != nil && !pt.routers[h].Fetching && pt.routers[h].Known < pt.routers[h].Latest
 }
 
 // Apply (C19, log replay): the router's prefix set P becomes specApply(P, ops): reset, then adds, then removes.
